@@ -43,8 +43,12 @@ type TPara struct {
 	Repeat  bool   // table header / footer cell: repeated on every page of the table
 	Style   string // extra declarations
 	Tag     string
-	Covered bool // inside a box with an explicit height (excluded by the quantifier)
+	Covered bool     // inside a box with an explicit height (excluded by the quantifier)
 	Ctx     []string // structural context: own kind and the kinds of the enclosing paragraphs
+	// computed by (*TextDoc).Index from the tree (never read from a corpus file):
+	Anc   []int  // ids of the enclosing paragraphs, outermost first
+	Role  string // root li cell inline-block float abspos block-in-inline
+	Block bool   // float / abspos that is a sibling of blocks (not part of a line)
 }
 
 const (
@@ -52,6 +56,7 @@ const (
 	NDiv
 	NTable
 	NList
+	NOof // a block-level out-of-flow box (float / position: absolute) between block-level siblings
 )
 
 type TNode struct {
@@ -81,6 +86,11 @@ type tgen struct {
 	tags map[string]bool
 	n    int // characters so far
 	max  int
+	// document profile
+	avoidy bool // break-before / break-after: avoid on many blocks (the layout has to rewind to an earlier break)
+	short  bool // many one-line blocks (cannot be broken inside: breaks fall between siblings)
+	shortN int  // shortN in shortN+1 in-flow blocks are one-liners
+	oof    int  // 1 in `oof` block-level children is an out-of-flow box (0 = none)
 }
 
 var wordChars = []rune("abcdefghijklmnopqrstuvwxyzABCDEFGHIJKLMNOPQRSTUVWXYZ0123456789")
@@ -254,12 +264,23 @@ func (g *tgen) blockStyle() string {
 	if r.Chance(1, 6) {
 		st = append(st, fmt.Sprintf("padding:%dpx %dpx", r.Range(0, 2)*5, r.Range(0, 2)*5))
 	}
-	if r.Chance(1, 8) {
+	// in the avoid profile forced breaks and named pages are rare: pages end because they are full
+	den := 8
+	if g.avoidy {
+		den = 32
+	}
+	if r.Chance(1, den) {
 		st = append(st, "break-before:"+vlib.Pick(r, []string{"page", "avoid", "left", "right", "always"}))
 		g.tags["break"] = true
+	} else if g.avoidy && r.Chance(1, 3) {
+		st = append(st, "break-before:avoid")
+		g.tags["break"] = true
 	}
-	if r.Chance(1, 8) {
+	if r.Chance(1, den) {
 		st = append(st, "break-after:"+vlib.Pick(r, []string{"page", "avoid", "left", "right"}))
+		g.tags["break"] = true
+	} else if g.avoidy && r.Chance(1, 4) {
+		st = append(st, "break-after:avoid")
 		g.tags["break"] = true
 	}
 	if r.Chance(1, 8) {
@@ -280,15 +301,57 @@ func (g *tgen) blockStyle() string {
 		st = append(st, "overflow-wrap:"+vlib.Pick(r, []string{"break-word", "anywhere"}))
 		g.tags["overflow-wrap"] = true
 	}
-	if r.Chance(1, 14) {
+	if r.Chance(1, 14*den/8) {
 		st = append(st, "page:"+vlib.Pick(r, []string{"n1", "n2"}))
 		g.tags["named"] = true
 	}
 	return strings.Join(st, ";")
 }
 
+// a block-level out-of-flow box: a float or an absolutely positioned box that is a
+// sibling of the blocks around it (not part of a line)
+func (g *tgen) oofNode() *TNode {
+	r := g.r
+	kind, style := "in-float", "float:"+vlib.Pick(r, []string{"left", "right"})+";width:"+vlib.Pick(r, []string{"40%", "60px", "auto"})
+	if r.Chance(1, 3) {
+		kind, style = "in-abspos", "position:absolute;"+vlib.Pick(r, []string{"top:0;left:0", "bottom:0;right:0", "", "top:10px"})
+		g.tags["abspos"] = true
+	} else {
+		g.tags["float"] = true
+	}
+	g.ctx = append(g.ctx, kind)
+	var p *TPara
+	if g.short && r.Chance(2, 3) {
+		p = &TPara{ID: len(g.d.Paras), Mode: g.d.BodyMode, Tag: "div", Ctx: append([]string{}, g.ctx...)}
+		g.d.Paras = append(g.d.Paras, p)
+		p.Items = []*TItem{{Kind: TText, Mode: p.Mode, Text: g.word()}}
+	} else {
+		p = g.newPara(g.d.BodyMode, false, 2)
+	}
+	g.ctx = g.ctx[:len(g.ctx)-1]
+	p.Style = style
+	g.tags["oof-block"] = true
+	return &TNode{Kind: NOof, Para: p}
+}
+
+// a one-line block
+func (g *tgen) shortPara() *TNode {
+	p := &TPara{ID: len(g.d.Paras), Mode: g.d.BodyMode, InFlow: true, Tag: "div"}
+	p.Ctx = append([]string{}, g.ctx...)
+	g.d.Paras = append(g.d.Paras, p)
+	p.Items = []*TItem{{Kind: TText, Mode: p.Mode, Text: g.word()}}
+	p.Style = g.blockStyle()
+	return &TNode{Kind: NPara, Para: p}
+}
+
 func (g *tgen) node(depth int) *TNode {
 	r := g.r
+	if g.oof != 0 && r.Chance(1, g.oof) {
+		return g.oofNode()
+	}
+	if g.short && r.Chance(g.shortN, g.shortN+1) {
+		return g.shortPara()
+	}
 	k := r.Intn(20)
 	if depth >= 2 && k >= 12 {
 		k = r.Intn(12)
@@ -381,7 +444,29 @@ func GenerateText(r *vlib.Rng) *TextDoc {
 		d.BodyMode = r.Intn(5)
 		g.tags["ws="+WsNames[d.BodyMode]] = true
 	}
-	for len(d.Nodes) == 0 || (g.n < g.max && r.Chance(5, 6)) {
+	cont := 6
+	if r.Chance(1, 5) {
+		// rewinds between siblings: one-line blocks, many `avoid` values, out-of-flow siblings
+		g.avoidy, g.short, g.shortN, g.oof = true, true, 5, 3
+		g.tags["profile-rewind"] = true
+		// a handful of lines per page, many blocks
+		d.FontSize, d.PageH = 20, vlib.Pick(r, []int{60, 80, 100})
+		cont = 16
+		g.max = r.Range(300, 800)
+	} else {
+		if r.Chance(1, 4) {
+			g.avoidy = true
+			g.tags["profile-avoid"] = true
+		}
+		if r.Chance(1, 4) {
+			g.short, g.shortN = true, 1
+			g.tags["profile-short"] = true
+		}
+		if r.Chance(1, 2) {
+			g.oof = vlib.Pick(r, []int{4, 8})
+		}
+	}
+	for len(d.Nodes) == 0 || (g.n < g.max && r.Chance(cont-1, cont)) {
 		d.Nodes = append(d.Nodes, g.node(0))
 	}
 	return d
@@ -439,6 +524,8 @@ func nodeHTML(sb *strings.Builder, n *TNode) {
 	switch n.Kind {
 	case NPara:
 		paraHTML(sb, n.Para, n.Para.Tag, "")
+	case NOof:
+		paraHTML(sb, n.Para, "div", "")
 	case NDiv:
 		fmt.Fprintf(sb, `<div style="%s">`, n.Style)
 		for _, k := range n.Kids {
@@ -526,5 +613,131 @@ func (d *TextDoc) TagList() []string {
 			}
 		}
 	}
+	return out
+}
+
+// ---------------------------------------------------------------- structure
+
+// Index recomputes, from the tree alone, the list of paragraphs by id, the
+// enclosing paragraphs (Anc) and the role of every paragraph.
+func (d *TextDoc) Index() {
+	byID := map[int]*TPara{}
+	var para func(p *TPara, anc []int, role string)
+	var items func(its []*TItem, anc []int)
+	items = func(its []*TItem, anc []int) {
+		for _, it := range its {
+			switch it.Kind {
+			case TSpan:
+				items(it.Kids, anc)
+			case TInlineBlock:
+				para(it.Para, anc, "inline-block")
+			case TFloat:
+				para(it.Para, anc, "float")
+			case TAbs:
+				para(it.Para, anc, "abspos")
+			case TBlockIn:
+				para(it.Para, anc, "block-in-inline")
+			}
+		}
+	}
+	para = func(p *TPara, anc []int, role string) {
+		if p == nil {
+			return
+		}
+		p.Anc = append([]int{}, anc...)
+		p.Role = role
+		p.Block = false
+		byID[p.ID] = p
+		items(p.Items, append(append([]int{}, anc...), p.ID))
+	}
+	var node func(n *TNode)
+	node = func(n *TNode) {
+		switch n.Kind {
+		case NPara:
+			role := "root"
+			if n.Para.Tag == "li" {
+				role = "li"
+			}
+			para(n.Para, nil, role)
+		case NOof:
+			role := "float"
+			if strings.Contains(n.Para.Style, "position:absolute") {
+				role = "abspos"
+			}
+			para(n.Para, nil, role)
+			n.Para.Block = true
+		case NDiv, NList:
+			for _, k := range n.Kids {
+				node(k)
+			}
+		case NTable:
+			for _, c := range n.Head {
+				para(c, nil, "cell")
+			}
+			for _, c := range n.Foot {
+				para(c, nil, "cell")
+			}
+			for _, r := range n.Rows {
+				for _, c := range r {
+					para(c, nil, "cell")
+				}
+			}
+		}
+	}
+	for _, n := range d.Nodes {
+		node(n)
+	}
+	// the list by id points into the tree (a document read from JSON has copies there)
+	for i, p := range d.Paras {
+		if q := byID[p.ID]; q != nil {
+			d.Paras[i] = q
+		}
+	}
+}
+
+// ParaByID returns the paragraph with the given id (nil when absent).
+func (d *TextDoc) ParaByID(id int) *TPara {
+	for _, p := range d.Paras {
+		if p.ID == id {
+			return p
+		}
+	}
+	return nil
+}
+
+// HasText: the paragraph's own inline content has at least one character (white space included)
+func (p *TPara) HasText() bool {
+	var walk func(its []*TItem) bool
+	walk = func(its []*TItem) bool {
+		for _, it := range its {
+			if (it.Kind == TText && it.Text != "") || (it.Kind == TSpan && walk(it.Kids)) {
+				return true
+			}
+		}
+		return false
+	}
+	return walk(p.Items)
+}
+
+// OwnText is the text the paragraph's own inline formatting context carries,
+// white space removed: the text items in document order (nested paragraphs excluded).
+func (p *TPara) OwnText() []rune {
+	var out []rune
+	var walk func(its []*TItem)
+	walk = func(its []*TItem) {
+		for _, it := range its {
+			switch it.Kind {
+			case TText:
+				for _, c := range it.Text {
+					if c != ' ' && c != '\t' && c != '\n' && c != '\r' {
+						out = append(out, c)
+					}
+				}
+			case TSpan:
+				walk(it.Kids)
+			}
+		}
+	}
+	walk(p.Items)
 	return out
 }
